@@ -42,6 +42,38 @@ PAIRS = {'romea::core::OnlineAverage': [('sumOfData_', 'data_', 1)],
          'romea::core::OnlineVariance': [('sumOfData_', 'data_', 1), ('sumOfSquaredData_', 'squaredData_', 2)]}
 
 
+def _accumulate_hook(cq):
+    """std::accumulate(c.begin(), c.end(), init) over a window container: the sum of the container AFTER the operations this call has performed on it, written as the paired running total before the
+    call (the invariant total = sum of the container, which the step rule S2 re-establishes) plus what was pushed / replaced.  The width of the accumulator - the type of `init` - is judged by S4."""
+    def hook(rd, e, st, ctx):
+        if e.get('k') != 'Call' or not (e.get('fn') or '').startswith('std::accumulate') or len(e.get('args', [])) != 3:
+            return NotImplemented
+        b_, e_ = strip_casts(e['args'][0]), strip_casts(e['args'][1])
+        if not (b_.get('k') == 'MCall' and b_.get('m') in ('begin', 'cbegin') and e_.get('k') == 'MCall' and e_.get('m') in ('end', 'cend')):
+            return NotImplemented
+        lv = rd.lvalue(b_['obj'], st, ctx)
+        lv2 = rd.lvalue(e_['obj'], st, ctx)
+        if not lv or lv != lv2 or lv[0] != 'field':
+            return NotImplemented
+        pair = next((p_ for p_ in PAIRS.get(cq, []) if ('this', p_[1]) == tuple(lv[1])), None)
+        cont = st.fields.get(lv[1])
+        if pair is None:
+            return NotImplemented
+        total = sp.Symbol('this.' + pair[0], integer=True)
+        for o in (cont.ops if isinstance(cont, sym.Cont) else []):
+            if o[0] == 'push':
+                total = total + o[1]
+            elif o[0] == 'store':
+                total = total + o[2] - sp.Function('elem')(sp.Symbol('this.' + pair[1]), o[1])
+            else:
+                return NotImplemented
+        out = []
+        for (iv, s2) in rd.ev(e['args'][2], st, ctx):
+            out.append((total + iv if isinstance(iv, sp.Basic) else total, s2))
+        return out
+    return hook
+
+
 def _eq(a, b):
     if isinstance(a, sym.Cont) or isinstance(b, sym.Cont):
         if isinstance(a, sym.Cont) and isinstance(b, sym.Cont):
@@ -156,7 +188,7 @@ def check_stepper(fx, R, cq, stepper, restart):
         return
     R.used(fstep, frest)
     try:
-        rd = sym.Reader(fx)
+        rd = sym.Reader(fx, call_hook=_accumulate_hook(cq))
         steps = rd.run(fstep)
         rr = sym.Reader(fx)
         rests = rr.run(frest)
@@ -504,6 +536,23 @@ def check_widths(fx, R):
                 for v in x['vars']:
                     if v.get('init') is not None and v['t'].get('c') == 'int' and v['id'] not in assigned:
                         LOCAL_INITS[v['id']] = v['init']
+        # a reduction over the window (std::accumulate / std::reduce / inner_product): the accumulator has the type of the INITIAL VALUE argument, whatever the element type is
+        for x in walk(f.get('body')):
+            if x.get('k') == 'Call' and (x.get('fn') or '').split('<')[0] in ('std::accumulate', 'std::reduce', 'std::inner_product') and x.get('args'):
+                init_ = x['args'][2] if len(x['args']) >= 3 and 'inner_product' not in x['fn'] else x['args'][-1]
+                ti = strip_casts(init_).get('t') or {}
+                inst = '%s:%s' % (short_fn(f['q']), pp(x)[:70])
+                n_nodes += 1
+                if ti.get('c') == 'int' and (ti.get('bits') or 64) < 64:
+                    lo_hi = 64 * 10 ** 8
+                    R.violated('S4', '%s:accumulator-width' % short_fn(f['q']), 'the window is summed by `%s`; the accumulator of that reduction has the type of its initial value, %s (%d bits), not the 64-bit type of the '
+                               'samples: with |value|/precision up to 1e8 and windows up to 64 samples the sum reaches %d, beyond %d - the running total wraps and the average is wrong from 22 same-sign samples of '
+                               'top magnitude on' % (pp(x)[:80], ti.get('s'), ti.get('bits'), lo_hi, 2 ** (ti['bits'] - 1) - 1), fx.rel(x['loc']), 'E-INT')
+                elif ti.get('c') == 'fp':
+                    R.violated('S4', '%s:accumulator-width' % short_fn(f['q']), 'the window is summed by `%s` into a floating accumulator (%s): the statement asks for integer sums with no accumulated drift' % (
+                        pp(x)[:80], ti.get('s')), fx.rel(x['loc']), 'E-INT')
+                else:
+                    R.holds('S4', inst, 'accumulator type %s holds 64 * 1e8 (and its square sums are judged where they are formed)' % ti.get('s'), fx.rel(x['loc']), 'E-INT')
         nodes = []
         for x in walk(f.get('body')):
             if x.get('k') == 'Bin' and x['op'] in ('*', '+', '-') and x['t'].get('c') == 'int':
